@@ -124,6 +124,8 @@ d2(1, 2) = 9
 dyn(3) = 1.5
 ga(2, 1) = 2.5#
 PRINT g.a.x; b1.a.y; arr(2).y; d2(1, 2); dyn(3); ga(2, 1); LBOUND(d2, 2); UBOUND(dyn)
+g.b.x = 3: b1.b.x = g.b.x
+PRINT g.b.x; b1.b.x
 show b1, 3
 SUB show(v AS box, k%)
   STATIC cnt AS INTEGER
@@ -219,9 +221,12 @@ GOTO a2
 a1:
 a2:
 GOSUB sr
+GOSUB sr2
 END
 sr:
 RETURN
+sr2:
+RETURN a1
 ''')
     add('errors', '''
 ON ERROR GOTO h
@@ -406,6 +411,7 @@ def text_diff(a, b):
 
 
 OPRE = re.compile(r'^[0-9a-f]{8}: (\S+)')
+DISRE = re.compile(r'^([0-9a-f]{8}): (\S+)\s*(.*)$', re.S)
 
 
 def op_of_line(line):
@@ -581,6 +587,9 @@ class Checker:
             self.check_cpu(desc, r, m[1], p['literals'])
         elif 'cpu_exc' in r:
             self.rep(f'C09/cpu-decoder-raises({r["cpu_exc"][0]})', desc, {'impl': r['cpu_exc']}, True)
+        # --- the real disassembler against the real machine decoder (no model involved)
+        if 'cpu' in r and 'disasm' in r:
+            self.check_dis_vs_cpu(desc, r)
         # --- D39: the .data part of the listing
         self.check_listing_data(desc, r)
 
@@ -611,6 +620,42 @@ class Checker:
             if not ok:
                 self.rep(f'C09/cpu-decode-model-differs({op})', desc,
                          {'impl': [off, op, ops], 'model': [moff, mname, mops]}, False)
+                return
+
+    def check_dis_vs_cpu(self, desc, r):
+        import struct
+        lines = re.split(r'\n(?=[0-9a-f]{8}: )', r['disasm'][:-1]) if r['disasm'] else []
+        cpu = r['cpu']
+        if len(lines) != len(cpu):
+            self.rep('C09/disassembler-vs-machine-decoder(length)', desc,
+                     {'disassembly': len(lines), 'machine': len(cpu)}, True)
+            return
+        for line, (off, op, ops, size) in zip(lines, cpu):
+            m = DISRE.match(line)
+            ok = bool(m) and int(m.group(1), 16) == off and m.group(2) == op
+            if ok:
+                rest = m.group(3)
+                if op == 'push$':
+                    k = rest.find(';')
+                    idx = int(rest[:k].strip())
+                    lit = rest[k + 2:][1:-1]
+                    if ops[0][1] != lit and idx < 32768:
+                        ok = False
+                else:
+                    toks = [t for t in rest.split(', ')] if rest else []
+                    if len(toks) != len(ops):
+                        ok = False
+                    else:
+                        for t, o in zip(toks, ops):
+                            if o[0] == 0:
+                                v = int(t, 16) if t.startswith('0x') else int(t)
+                                ok = ok and v == o[1]
+                            elif o[0] == 1:
+                                want = struct.unpack('>d', struct.pack('>Q', o[1]))[0]
+                                ok = ok and (repr(want) == t)
+            if not ok:
+                self.rep(f'C09/disassembler-vs-machine-decoder({op})', desc,
+                         {'disassembly': line, 'machine': [off, op, ops]}, True)
                 return
 
     def check_listing_data(self, desc, r):
@@ -782,8 +827,10 @@ def main(tier, seed):
     run_compiled_suite(ctx, ck, 'corpus', progs_q)
     feats = feature_programs(tier)
     ctx.rule.append(f'a2: {len(feats)} feature programs (all cp437 characters a literal can hold, DATA with '
-                    f'empty items / many parts, 30 labels, 50 routines, records/arrays/shared/static, every '
-                    f'operator and builtin, all devices) x 6 configurations')
+                    f'empty items / 40 parts, {"8" if tier == "quick" else "8 and 30"} labels, '
+                    f'{"10" if tier == "quick" else "10 and 50"} routines, records/arrays/shared/static, '
+                    f'globals and record fields of every type, every operator and builtin, all devices) '
+                    f'x 6 configurations + 2 record-parameter programs')
     run_compiled_suite(ctx, ck, 'features', feats)
     recs = [{'file': 'feature:' + n, 'idx': 0, 'src': s} for n, s in RECORD_PARAM_PROGRAMS]
     run_compiled_suite(ctx, ck, 'record_params', recs)
